@@ -109,9 +109,16 @@ def perturb(rng, case, uid, kind):
     e2 = copy.deepcopy(case["election"])
     i = e2.cur.index[e2.cur["geographic_unit_fips"] == uid][0]
     mode = rng.choice(["zero", "small", "x3", "huge", "x1.1", "x1.1"]) if kind != "blocklisted-both" else "x1.1"
+    if kind == "unexpected" and rng.random() < 0.5:
+        mode = "nan"  # the replacement count is missing: the unit adds nothing, the other groups must not notice
     od, og = int(e2.cur.loc[i, "results_dem"]), int(e2.cur.loc[i, "results_gop"])
     d, g = {"zero": (0, 0), "small": (3, 1), "x3": (od * 3 + 1, og * 3 + 2), "huge": (900001, 400003),
-            "x1.1": (int(od * 1.1) + 1, int(og * 0.95) + 1)}[mode]
+            "x1.1": (int(od * 1.1) + 1, int(og * 0.95) + 1), "nan": (0, 0)}[mode]
+    if mode == "nan":
+        e2.cur["results_dem"] = e2.cur["results_dem"].astype(float)
+        e2.cur.loc[i, "results_dem"] = float("nan")
+        c2["election"] = e2
+        return c2, mode
     e2.cur.loc[i, "results_dem"], e2.cur.loc[i, "results_gop"] = d, g
     e2.cur.loc[i, "results_turnout"] = d + g + 11
     if kind == "blocklisted-both":
@@ -133,7 +140,7 @@ def explore(run, driver, budget):
         case = A.gen_case(rng, pi_method=pi, roles=[r for r in E.ROLES if r != "nan-estimand"] + ["partial", "blocklisted"])
         if "unit" not in case["aggregates"]:
             case["aggregates"] = case["aggregates"] + ["unit"]
-        kind, uid = pick_unit(rng, case, prefer=("blocklisted-both" if i % 3 == 0 else None))
+        kind, uid = pick_unit(rng, case, prefer=("blocklisted-both" if i % 3 == 0 else "unexpected" if i % 6 == 2 else None))
         if uid is None:
             continue
         caseB, mode = perturb(rng, case, uid, kind)
